@@ -973,6 +973,8 @@ func (it *Interp) bytesLess(a, b []*smt.Term) *smt.Term {
 	}
 	// result if all common bytes equal:
 	r := c.BoolConst(len(a) < len(b))
+	a, b = it.coalesceBytes(a[:n], b[:n]) // bytes_runs.go: big-endian encoded words compare as one value
+	n = len(a)
 	for i := n - 1; i >= 0; i-- {
 		r = c.Ite(c.Eq(a[i], b[i]), r, c.BVUlt(a[i], b[i]))
 	}
